@@ -8,6 +8,7 @@
 -/
 import SkyllhModel.Model.Params
 import SkyllhModel.Proofs.Params
+import SkyllhModel.Proofs.ParamsHeap
 import SkyllhModel.Generated.C04
 import Mathlib.Tactic
 
@@ -1964,3 +1965,374 @@ end random
 example : (PSet.run (PSet.empty : PSet Int)
     [.add ⟨"a", 1, some 0, some 4, none⟩ false, .add ⟨"c", 2, some 1, some 3, none⟩ true]).randomInitials [1, 0]
     = .ok [some 3, some 0] := by decide
+
+/-! ## Object identity: sets that share `Parameter` objects (Model/ParamsHeap.lean) -/
+
+open Params.Heap C04H
+
+/-- **frame property**: an edit through set object `k` does not change what another set object `m` shows,
+provided the two reference no common `Parameter` object -/
+theorem c04_heap_frame (w : World V) (k m : Nat) (r r' : RefSet V) (f : PSet V → PSet V × Except Err Unit)
+    (hk : w.sets[k]? = some r) (hm : w.sets[m]? = some r') (hne : k ≠ m)
+    (hdis : ∀ i ∈ r.ids, i ∉ r'.ids) :
+    (editThrough w k f).1.sets[m]? = some r' ∧
+    r'.view (editThrough w k f).1.heap = r'.view w.heap := by
+  unfold editThrough
+  rw [hk]
+  simp only
+  refine ⟨by rw [List.getElem?_set_ne hne]; exact hm, ?_⟩
+  unfold RefSet.view
+  rw [deref_congr _ _ _ (fun j hj => writeBack_get_other _ _ _ j (fun hjr => hdis j hjr hj))]
+
+/-- **`copy()` creates fresh objects**: none of the objects of the copy is referenced by a set that existed
+before (whose references are valid), and the copy shows exactly what the original shows -/
+theorem c04_copy_fresh (w : World V) (i : Nat) (a : RefSet V) (ha : w.sets[i]? = some a) :
+    ∃ c, (copySet w i).1.sets = w.sets ++ [c] ∧ (copySet w i).2 = .ok () ∧
+      c.view (copySet w i).1.heap = a.view w.heap ∧
+      (∀ r ∈ w.sets, (∀ j ∈ r.ids, j < w.heap.length) → ∀ j ∈ c.ids, j ∉ r.ids) ∧
+      (∀ r ∈ w.sets, (∀ j ∈ r.ids, j < w.heap.length) → r.view (copySet w i).1.heap = r.view w.heap) := by
+  unfold copySet
+  rw [ha]
+  simp only
+  refine ⟨⟨List.range' w.heap.length (deref w.heap a.ids).length, a.st⟩, ?_, ?_, ?_, ?_, ?_⟩
+  · rfl
+  · trivial
+  · unfold RefSet.view
+    simp only [deref_range']
+  · intro r _ hv j hj hjr
+    simp only [List.mem_range'_1] at hj
+    have := hv j hjr
+    omega
+  · intro r _ hv
+    unfold RefSet.view
+    rw [deref_append_left _ _ _ hv]
+
+/-- **a copy is independent of its original** (and of every other older set): whatever is edited through the
+copy, the older sets show what they showed -/
+theorem c04_copy_independent (w : World V) (i m : Nat) (a r : RefSet V) (ha : w.sets[i]? = some a)
+    (hm : w.sets[m]? = some r) (hv : ∀ j ∈ r.ids, j < w.heap.length)
+    (f : PSet V → PSet V × Except Err Unit) :
+    r.view (editThrough (copySet w i).1 w.sets.length f).1.heap = r.view w.heap := by
+  obtain ⟨c, hs, _, _, hfresh, hsame⟩ := c04_copy_fresh w i a ha
+  have hrm : r ∈ w.sets := List.mem_of_getElem? hm
+  have hlt : m < w.sets.length := (List.getElem?_eq_some_iff.1 hm).1
+  have hk : (copySet w i).1.sets[w.sets.length]? = some c := by rw [hs]; simp
+  have hm' : (copySet w i).1.sets[m]? = some r := by
+    rw [hs, List.getElem?_append_left hlt]; exact hm
+  have := (c04_heap_frame (copySet w i).1 w.sets.length m c r f hk hm' (by omega)
+    (fun j hj => hfresh r hrm hv j hj)).2
+  rw [this, hsame r hrm hv]
+
+/-- the full claim for worlds in which sets may share objects: every set object of every reachable world
+is coherent -/
+def c04_shared_objects_statement : Prop :=
+  ∀ (ops : List (WOp Int)) (k : Nat) (r : RefSet Int),
+    (World.run World.empty ops).sets[k]? = some r → Coherent (r.view (World.run World.empty ops).heap)
+
+/-- … is false for the code as it is (open finding `C04/shared-parameter-objects/stale-caches`, replayed on
+the implementation by the oracle `sharing` and by the world histories): `u = union(s, s)` shares the
+objects of `s`; fixing `a` through `u` leaves the mask of `s` saying "floating" -/
+theorem c04_shared_objects_counterexample : ¬ c04_shared_objects_statement := by
+  intro h
+  have := (h [.add 0 ⟨"a", 1, some 0, some 2, none⟩ false, .union 0 0, .fix 1 [("a", .cur)]] 0 _ rfl).mask
+  revert this
+  decide
+
+/-! ### … and what does hold: without `union` / `ParameterSet(params=…)` nothing is shared -/
+
+/-- world invariant: references valid and distinct, every set coherent, no object in two sets -/
+structure C04H.WInv (w : World V) : Prop where
+  valid : ∀ (k : Nat) (r : RefSet V), w.sets[k]? = some r → ∀ i ∈ r.ids, i < w.heap.length
+  nodup : ∀ (k : Nat) (r : RefSet V), w.sets[k]? = some r → r.ids.Nodup
+  coh : ∀ (k : Nat) (r : RefSet V), w.sets[k]? = some r → Coherent (r.view w.heap)
+  disj : ∀ (k m : Nat) (r r' : RefSet V), k ≠ m → w.sets[k]? = some r → w.sets[m]? = some r' →
+    ∀ i ∈ r.ids, i ∉ r'.ids
+
+/-- ops that create no second reference to an object -/
+def C04H.noShare : WOp V → Bool
+  | .union _ _ => false
+  | .ctor _ => false
+  | _ => true
+
+theorem C04H.winv_empty : C04H.WInv (World.empty : World V) := by
+  refine ⟨?_, ?_, ?_, ?_⟩
+  · intro k r h i hi
+    cases k with
+    | zero => simp [World.empty] at h; subst h; simp at hi
+    | succ k => simp [World.empty] at h
+  · intro k r h
+    cases k with
+    | zero => simp [World.empty] at h; subst h; simp
+    | succ k => simp [World.empty] at h
+  · intro k r h
+    cases k with
+    | zero =>
+      simp [World.empty] at h; subst h
+      exact coherent_empty
+    | succ k => simp [World.empty] at h
+  · intro k m r r' hne hk hm
+    cases k with
+    | zero =>
+      cases m with
+      | zero => exact absurd rfl hne
+      | succ m => simp [World.empty] at hm
+    | succ k => simp [World.empty] at hk
+
+theorem C04H.winv_edit (w : World V) (hw : C04H.WInv w) (k : Nat) (f : PSet V → PSet V × Except Err Unit)
+    (hf : ∀ s, Coherent s → Coherent (f s).1 ∧ (f s).1.params.length = s.params.length) :
+    C04H.WInv (editThrough w k f).1 := by
+  unfold editThrough
+  cases hk : w.sets[k]? with
+  | none => exact hw
+  | some r =>
+    simp only
+    have hklt : k < w.sets.length := (List.getElem?_eq_some_iff.1 hk).1
+    have hcoh := hw.coh k r hk
+    obtain ⟨hfc, hfl⟩ := hf _ hcoh
+    have hlen : (f (r.view w.heap)).1.params.length = r.ids.length := by
+      rw [hfl]
+      exact deref_length _ _ (hw.valid k r hk)
+    have hself : deref (writeBack w.heap r.ids (f (r.view w.heap)).1.params) r.ids = (f (r.view w.heap)).1.params :=
+      deref_writeBack_self _ _ _ (hw.nodup k r hk) (hw.valid k r hk) hlen
+    -- what register m of the new world is
+    have hget : ∀ (m : Nat) (r'' : RefSet V), (w.sets.set k { r with st := (f (r.view w.heap)).1 })[m]? = some r'' →
+        (m = k ∧ r'' = { r with st := (f (r.view w.heap)).1 }) ∨ (m ≠ k ∧ w.sets[m]? = some r'') := by
+      intro m r'' h
+      rw [List.getElem?_set] at h
+      by_cases hmk : k = m
+      · rw [if_pos hmk, if_pos hklt] at h
+        exact Or.inl ⟨hmk.symm, (Option.some.inj h).symm⟩
+      · rw [if_neg hmk] at h
+        exact Or.inr ⟨fun h' => hmk h'.symm, h⟩
+    have hids : ∀ (m : Nat) (r'' : RefSet V), (w.sets.set k { r with st := (f (r.view w.heap)).1 })[m]? = some r'' →
+        ∃ r0 : RefSet V, w.sets[m]? = some r0 ∧ r0.ids = r''.ids := by
+      intro m r'' h
+      rcases hget m r'' h with ⟨h1, h2⟩ | ⟨_, h2⟩
+      · subst h1; subst h2; exact ⟨r, hk, rfl⟩
+      · exact ⟨r'', h2, rfl⟩
+    refine ⟨?_, ?_, ?_, ?_⟩
+    · intro m r'' h i hi
+      obtain ⟨r0, h0, hid⟩ := hids m r'' h
+      rw [writeBack_length]
+      exact hw.valid m r0 h0 i (by rw [hid]; exact hi)
+    · intro m r'' h
+      obtain ⟨r0, h0, hid⟩ := hids m r'' h
+      rw [← hid]; exact hw.nodup m r0 h0
+    · intro m r'' h
+      rcases hget m r'' h with ⟨h1, h2⟩ | ⟨hne, h2⟩
+      · subst h2
+        have : ({ r with st := (f (r.view w.heap)).1 } : RefSet V).view
+            (writeBack w.heap r.ids (f (r.view w.heap)).1.params) = (f (r.view w.heap)).1 := by
+          have hv : ∀ (st : PSet V) (hp : List (Param V)),
+              (⟨r.ids, st⟩ : RefSet V).view hp = { st with params := deref hp r.ids } := fun _ _ => rfl
+          rw [hv, hself]
+        rw [this]; exact hfc
+      · have hfr := (c04_heap_frame w k m r r'' f hk h2 (fun h' => hne h'.symm)
+          (hw.disj k m r r'' (fun h' => hne h'.symm) hk h2)).2
+        unfold editThrough at hfr
+        rw [hk] at hfr
+        simp only at hfr
+        rw [hfr]
+        exact hw.coh m r'' h2
+    · intro m1 m2 r1 r2 hne h1 h2
+      obtain ⟨a1, ha1, hid1⟩ := hids m1 r1 h1
+      obtain ⟨a2, ha2, hid2⟩ := hids m2 r2 h2
+      rw [← hid1, ← hid2]
+      exact hw.disj m1 m2 a1 a2 hne ha1 ha2
+
+theorem C04H.winv_copy (w : World V) (hw : C04H.WInv w) (i : Nat) : C04H.WInv (copySet w i).1 := by
+  cases ha : w.sets[i]? with
+  | none => unfold copySet; rw [ha]; exact hw
+  | some a =>
+    obtain ⟨c, hs, _, hview, hfresh, hsame⟩ := c04_copy_fresh w i a ha
+    have hheap : (copySet w i).1.heap = w.heap ++ deref w.heap a.ids := by
+      unfold copySet; rw [ha]
+    have hcids : c.ids = List.range' w.heap.length (deref w.heap a.ids).length := by
+      have := hs
+      unfold copySet at this
+      rw [ha] at this
+      simp only at this
+      have := List.append_cancel_left this
+      simp only [List.cons.injEq, and_true] at this
+      rw [← this]
+    have hget : ∀ (m : Nat) (r : RefSet V), (copySet w i).1.sets[m]? = some r →
+        (m < w.sets.length ∧ w.sets[m]? = some r) ∨ (m = w.sets.length ∧ r = c) := by
+      intro m r h
+      rw [hs, List.getElem?_append] at h
+      by_cases hm : m < w.sets.length
+      · rw [if_pos hm] at h; exact Or.inl ⟨hm, h⟩
+      · rw [if_neg hm] at h
+        have hm0 : m - w.sets.length = 0 := by
+          by_contra hne
+          have : 1 ≤ m - w.sets.length := by omega
+          rw [List.getElem?_eq_none (by simpa using this)] at h
+          cases h
+        rw [hm0] at h
+        simp only [List.getElem?_cons_zero, Option.some.injEq] at h
+        exact Or.inr ⟨by omega, h.symm⟩
+    have hold : ∀ (m : Nat) (r : RefSet V), w.sets[m]? = some r → r ∈ w.sets := fun m r h => List.mem_of_getElem? h
+    refine ⟨?_, ?_, ?_, ?_⟩
+    · intro m r h j hj
+      rw [hheap, List.length_append]
+      rcases hget m r h with ⟨_, h1⟩ | ⟨_, h1⟩
+      · have := hw.valid m r h1 j hj; omega
+      · subst h1
+        rw [hcids, List.mem_range'_1] at hj
+        omega
+    · intro m r h
+      rcases hget m r h with ⟨_, h1⟩ | ⟨_, h1⟩
+      · exact hw.nodup m r h1
+      · subst h1; rw [hcids]; exact List.nodup_range' 1
+    · intro m r h
+      rcases hget m r h with ⟨_, h1⟩ | ⟨_, h1⟩
+      · rw [hsame r (hold m r h1) (hw.valid m r h1)]; exact hw.coh m r h1
+      · subst h1; rw [hview]; exact hw.coh i a ha
+    · intro m1 m2 r1 r2 hne h1 h2
+      rcases hget m1 r1 h1 with ⟨_, g1⟩ | ⟨e1, g1⟩ <;> rcases hget m2 r2 h2 with ⟨_, g2⟩ | ⟨e2, g2⟩
+      · exact hw.disj m1 m2 r1 r2 hne g1 g2
+      · subst g2
+        intro j hj hjc
+        exact hfresh r1 (hold m1 r1 g1) (hw.valid m1 r1 g1) j hjc hj
+      · subst g1
+        intro j hj
+        exact hfresh r2 (hold m2 r2 g2) (hw.valid m2 r2 g2) j hj
+      · exact absurd (e1.trans e2.symm) hne
+
+theorem C04H.winv_add (w : World V) (hw : C04H.WInv w) (k : Nat) (p : Param V) (hp : ParamWF p) (front : Bool) :
+    C04H.WInv (addThrough w k p front).1 := by
+  unfold addThrough
+  cases hk : w.sets[k]? with
+  | none => exact hw
+  | some r =>
+    simp only
+    cases ha : (r.view w.heap).addParam p front with
+    | error e => exact hw
+    | ok st' =>
+      simp only
+      have hklt : k < w.sets.length := (List.getElem?_eq_some_iff.1 hk).1
+      have hvalid := hw.valid k r hk
+      obtain ⟨hst, hpar⟩ := addParam_coherent (hw.coh k r hk) hp ha
+      have hvp : (r.view w.heap).params = deref w.heap r.ids := rfl
+      have hnew : (w.heap ++ [p])[w.heap.length]? = some p := by simp
+      have hdold : deref (w.heap ++ [p]) r.ids = deref w.heap r.ids := deref_append_left _ _ _ hvalid
+      have hidfresh : w.heap.length ∉ r.ids := fun h => Nat.lt_irrefl _ (hvalid _ h)
+      have hderef : deref (w.heap ++ [p]) (if front then w.heap.length :: r.ids else r.ids ++ [w.heap.length]) =
+          st'.params := by
+        rw [hpar, hvp]
+        cases front
+        · simp only [Bool.false_eq_true, if_false]
+          unfold deref at hdold ⊢
+          rw [List.filterMap_append, hdold]
+          simp [hnew]
+        · simp only [if_true]
+          unfold deref at hdold ⊢
+          simp only [List.filterMap_cons, hnew, hdold]
+      have hget : ∀ (m : Nat) (r'' : RefSet V),
+          (w.sets.set k ⟨if front then w.heap.length :: r.ids else r.ids ++ [w.heap.length], st'⟩)[m]? = some r'' →
+          (m = k ∧ r'' = ⟨if front then w.heap.length :: r.ids else r.ids ++ [w.heap.length], st'⟩) ∨
+          (m ≠ k ∧ w.sets[m]? = some r'') := by
+        intro m r'' h
+        rw [List.getElem?_set] at h
+        by_cases hmk : k = m
+        · rw [if_pos hmk, if_pos hklt] at h
+          exact Or.inl ⟨hmk.symm, (Option.some.inj h).symm⟩
+        · rw [if_neg hmk] at h
+          exact Or.inr ⟨fun h' => hmk h'.symm, h⟩
+      have hmemnew : ∀ i, i ∈ (if front then w.heap.length :: r.ids else r.ids ++ [w.heap.length]) ↔
+          i = w.heap.length ∨ i ∈ r.ids := by
+        intro i
+        cases front <;> simp [or_comm]
+      refine ⟨?_, ?_, ?_, ?_⟩
+      · intro m r'' h i hi
+        rw [List.length_append, List.length_singleton]
+        rcases hget m r'' h with ⟨_, h2⟩ | ⟨_, h2⟩
+        · subst h2
+          rcases (hmemnew i).1 hi with h3 | h3
+          · omega
+          · have := hvalid i h3; omega
+        · have := hw.valid m r'' h2 i hi; omega
+      · intro m r'' h
+        rcases hget m r'' h with ⟨_, h2⟩ | ⟨_, h2⟩
+        · subst h2
+          have hnd := hw.nodup k r hk
+          cases front
+          · simp only [Bool.false_eq_true, if_false]
+            rw [List.nodup_append]
+            exact ⟨hnd, by simp, fun a ha b hb => by
+              simp only [List.mem_singleton] at hb; subst hb; exact fun h' => hidfresh (h' ▸ ha)⟩
+          · simp only [if_true, List.nodup_cons]
+            exact ⟨hidfresh, hnd⟩
+        · exact hw.nodup m r'' h2
+      · intro m r'' h
+        rcases hget m r'' h with ⟨_, h2⟩ | ⟨_, h2⟩
+        · subst h2
+          have : (⟨if front then w.heap.length :: r.ids else r.ids ++ [w.heap.length], st'⟩ : RefSet V).view
+              (w.heap ++ [p]) = st' := by
+            unfold RefSet.view
+            simp only [hderef]
+          rw [this]; exact hst
+        · have : r''.view (w.heap ++ [p]) = r''.view w.heap := by
+            unfold RefSet.view
+            rw [deref_append_left _ _ _ (hw.valid m r'' h2)]
+          rw [this]; exact hw.coh m r'' h2
+      · intro m1 m2 r1 r2 hne h1 h2 i hi1 hi2
+        rcases hget m1 r1 h1 with ⟨e1, g1⟩ | ⟨n1, g1⟩ <;> rcases hget m2 r2 h2 with ⟨e2, g2⟩ | ⟨n2, g2⟩
+        · exact hne (e1.trans e2.symm)
+        · subst g1
+          rcases (hmemnew i).1 hi1 with h3 | h3
+          · have := hw.valid m2 r2 g2 i hi2; omega
+          · exact hw.disj k m2 r r2 (fun h' => n2 h'.symm) hk g2 i h3 hi2
+        · subst g2
+          rcases (hmemnew i).1 hi2 with h3 | h3
+          · have := hw.valid m1 r1 g1 i hi1; omega
+          · exact hw.disj m1 k r1 r n1 g1 hk i hi1 h3
+        · exact hw.disj m1 m2 r1 r2 hne g1 g2 i hi1 hi2
+
+/-- every op that creates no second reference keeps the world invariant -/
+theorem c04_heap_inv_step (w : World V) (hw : C04H.WInv w) (op : WOp V) (hns : C04H.noShare op = true) :
+    C04H.WInv (w.step op).1 := by
+  cases op with
+  | add k a front =>
+    simp only [World.step]
+    cases hc : a.create with
+    | error e => exact hw
+    | ok p => exact C04H.winv_add w hw k p (c04_create_wf a p hc).1 front
+  | fix k req =>
+    exact C04H.winv_edit w hw k _ (fun s hs => ⟨c04_inv_step s (.fix req) hs,
+      C04.editAll_length (PSet.fixF req) (fun p p' h => (fixF_name req p p' h).1)
+        (fun p p' h => (fixF_name req p p' h).2) hs⟩)
+  | float k req =>
+    exact C04H.winv_edit w hw k _ (fun s hs => ⟨c04_inv_step s (.float req) hs,
+      C04.editAll_length (PSet.floatF req) (fun p p' h => (floatF_name req p p' h).1)
+        (fun p p' h => (floatF_name req p p' h).2) hs⟩)
+  | setv k n v =>
+    refine C04H.winv_edit w hw k _ (fun s hs => ⟨c04_inv_step s (.setv n v) hs, ?_⟩)
+    unfold PSet.setValue
+    cases h : PSet.setValueAux n v s.params with
+    | error e => rfl
+    | ok ps' =>
+      have := congrArg List.length (setValueAux_ok hs.wf h).1
+      simpa using this
+  | union i j => simp [C04H.noShare] at hns
+  | ctor i => simp [C04H.noShare] at hns
+  | copy i => exact C04H.winv_copy w hw i
+
+/-- **partial result for the open finding**: in every world reached without `union` and without
+`ParameterSet(params=<objects of another set>)` — i.e. with `add_param`, fix, float, value setter and
+`copy()` on any number of set objects — every set object is coherent (all its views agree) -/
+theorem c04_shared_objects_partial (ops : List (WOp V)) (hns : ∀ op ∈ ops, C04H.noShare op = true)
+    (k : Nat) (r : RefSet V) (hk : (World.run (World.empty : World V) ops).sets[k]? = some r) :
+    Coherent (r.view (World.run (World.empty : World V) ops).heap) := by
+  have key : ∀ (os : List (WOp V)), (∀ op ∈ os, C04H.noShare op = true) →
+      ∀ w : World V, C04H.WInv w → C04H.WInv (World.run w os) := by
+    intro os
+    induction os with
+    | nil => intro _ w hw; exact hw
+    | cons op os ih =>
+      intro h w hw
+      exact ih (fun o ho => h o (by simp [ho])) _ (c04_heap_inv_step w hw op (h op (by simp)))
+  exact (key ops hns _ C04H.winv_empty).coh k r hk
+
+example : (World.run (World.empty : World Int)
+    [.add 0 ⟨"a", 1, some 0, some 2, none⟩ false, .copy 0, .fix 1 [("a", .cur)]]).sets.map
+      (fun r => (r.ids, r.st.fixedMask)) = [([0], [false]), ([1], [true])] := by decide
